@@ -4,6 +4,8 @@ mod codec;
 mod items;
 mod log;
 mod par;
+#[cfg(feature = "persistence")]
+mod persist;
 mod seq;
 mod types;
 
@@ -41,6 +43,8 @@ fn main() {
         };
         match mode {
             "seq" => seq::run_job(&job),
+            #[cfg(feature = "persistence")]
+            "persist" => persist::run_job(&job),
             "par" => {
                 if !par::run_job(&job) {
                     // a hang: the process cannot recover its threads; stop here (the trace tells)
